@@ -130,3 +130,38 @@ func init() {
 		}, baseAssumptions...),
 		Outside: []string{"histories longer than the bound; payloads longer than one byte per append (framing of longer data is C15)", "several edits between two polls", "read errors, ESTALE", "pipes, sockets (C17), glob polling (C18)"}})
 }
+
+// ---- C11: data races between pairs of operations ----
+
+var c11Ops = []string{
+	"GetDatum(existing)", "GetDatum(new)", "RemoveDatum", "ExpireDatum", "update value",
+	"Store.Gc", "Store.Add(re-declared)", "Collect (prometheus)", "HandleVarz", "HandleGraphite", "push (graphite)",
+	"FindMetricOrNil", "update value of the other label set",
+}
+
+func init() {
+	register(&CheckDef{ID: "C11", Level: "model_checking", Only: []string{"C11."},
+		Jobs: func(tier string) []JobDef {
+			var jobs []JobDef
+			for a := range c11Ops {
+				for b := a; b < len(c11Ops); b++ {
+					j := exporterJob("HarnessC11Pair", 1, 0, fmt.Sprintf("operations %q and %q on a store holding one metric (each value type) with two label sets; both orders of execution recorded; every pair of conflicting accesses to the shared state decided by a schedule query", c11Ops[a], c11Ops[b]))
+					j.Name = fmt.Sprintf("pair-%d-%d", a, b)
+					j.Harness = []string{"exporter/c12.go", "exporter/c11.go"}
+					j.EngineOnly = append(append([]string{}, j.EngineOnly...), "exporter/c11_engine.go")
+					j.NativeOnly = append(append([]string{}, j.NativeOnly...), "exporter/c11_native.go")
+					j.Params = p("a", a, "b", b, "nofault", 1)
+					j.Race = true
+					jobs = append(jobs, j)
+				}
+			}
+			return jobs
+		},
+		Assumptions: append([]string{
+			"two operations at a time; each is executed sequentially by the engine (both orders) while every load, store, map access and atomic access to the cells of the shared pre-state is recorded with the locks held; goroutines an operation starts work under the locks their parent held at the start for as long as the parent holds them (Collect waits for EmitLabelSets)",
+			"a race is a pair of accesses to one cell, one from each operation, at least one a write, not both atomic, for which the solver finds a schedule of both operations' lock and access events with the two accesses adjacent; only mutual exclusion orders events of different operations",
+			"cells created during an operation are not tracked (publication of new objects happens under the metric's write lock)",
+			"native confirmation: the two operations run concurrently in a test binary built with -race",
+		}, baseAssumptions...),
+		Outside: []string{"more than two concurrent operations", "lost updates and stale multi-word reads that are not data races", "JSON export (encoding/json reflection is not executed symbolically)", "program reload at the runtime level (handles map), the tailer", "a store with more metrics or label sets"}})
+}
